@@ -388,12 +388,13 @@ pub struct IsoMon {
     /// well-formed non-requests an intruder sent to the listening port, awaiting their ERROR
     owed_errors: BTreeMap<SocketAddr, u64>,
     got_errors: BTreeMap<SocketAddr, u64>,
+    active_peer: BTreeMap<SocketAddr, usize>,
     pub probes: BTreeMap<&'static str, u64>,
 }
 
 impl IsoMon {
     pub fn new(clients: Vec<ClientSpec>, intruders: Vec<(usize, SocketAddr)>, listen: SocketAddr, single_port: bool) -> IsoMon {
-        IsoMon { attr: Attr::default(), clients, intruders, listen, single_port, live_src: BTreeMap::new(), owed_errors: BTreeMap::new(), got_errors: BTreeMap::new(), probes: BTreeMap::new() }
+        IsoMon { attr: Attr::default(), clients, intruders, listen, single_port, live_src: BTreeMap::new(), owed_errors: BTreeMap::new(), got_errors: BTreeMap::new(), active_peer: BTreeMap::new(), probes: BTreeMap::new() }
     }
     fn v(&self, rule: &str, detail: String) -> Violation {
         Violation::new("C12", &format!("C12.{rule}"), detail).sig("mode", if self.single_port { "single-port" } else { "multi-port" })
@@ -431,7 +432,7 @@ impl Monitor for IsoMon {
                             return Some(self.v("leak_to_foreign_endpoint", format!("{} was sent to {dst}, an endpoint that owns no transfer", rfc::summary(data))));
                         }
                     }
-                } else if let Some(c) = self.clients.iter().find(|c| c.client == *dst) {
+                } else if let Some(c) = self.clients.iter().find(|c| c.client == *dst && self.active_peer.get(dst).map_or(true, |p| *p == c.peer)) {
                     match pkt {
                         Some(Pkt::Data { .. }) => {
                             if c.upload {
@@ -444,6 +445,9 @@ impl Monitor for IsoMon {
                         _ => {}
                     }
                 }
+            }
+            Ev::Send { actor: Actor::Peer(p), src, .. } => {
+                self.active_peer.insert(*src, *p);
             }
             Ev::Deliver { dst, src, data, to_peer: None, .. } if *dst == self.listen => {
                 // a well-formed non-request from an endpoint that owns no transfer is owed an ERROR
